@@ -1,5 +1,6 @@
 import Driver.Util
 import LentilVerif.Model.Stochastic
+import LentilVerif.Gen.ShotDark
 /-! Driver ops for C18: the wrappers of the stochastic models run at `Float` on the draws the harness obtained from an
 identically seeded NumPy generator. -/
 open Lean Drv
@@ -17,14 +18,17 @@ def handle (op : String) (j : Json) : Option (R Json) :=
   match op with
   | "st.shot_poisson" => some do
       let img ← getFloats j "img"; let draws ← getInts j "draws"; let lamMax ← getFloat j "lam_max"
+      -- the regenerated guard chain of the source (Gen.shotGuardPoisson on np.min / np.max) must refuse exactly when the model does
+      let src := Gen.shotGuardPoisson (fun m s e => (OfScientific.ofScientific m s e : Float)) (img.foldl (fun a b => if b < a then b else a) img[0]!) (img.foldl (fun a b => if a < b then b else a) img[0]!)
       match shotPoisson lamMax (fun _ i _ => draws[i]!) 0 img.size (fun i => img[i]!) with
-      | none => pure (errJ "ValueError")
-      | some v => pure (okJ [("out", ints ((Array.range img.size).map v))])
+      | none => pure (errJ (if src then "ValueError" else "source-guard-accepts-but-model-refuses"))
+      | some v => if src then pure (errJ "source-guard-refuses-but-model-accepts") else pure (okJ [("out", ints ((Array.range img.size).map v))])
   | "st.shot_gaussian" => some do
       let img ← getFloats j "img"; let z ← getFloats j "z"; let lamMax ← getFloat j "lam_max"
+      let src := Gen.shotGuardGaussian (fun m s e => (OfScientific.ofScientific m s e : Float)) (img.foldl (fun a b => if b < a then b else a) img[0]!) (img.foldl (fun a b => if a < b then b else a) img[0]!)
       match shotGaussian lamMax Float.sqrt truncF (fun _ i => z[i]!) 0 img.size (fun i => img[i]!) with
-      | none => pure (errJ "ValueError")
-      | some v => pure (okJ [("out", ints ((Array.range img.size).map v))])
+      | none => pure (errJ (if src then "ValueError" else "source-guard-accepts-but-model-refuses"))
+      | some v => if src then pure (errJ "source-guard-refuses-but-model-accepts") else pure (okJ [("out", ints ((Array.range img.size).map v))])
   | "st.read_noise" => some do
       let img ← getFloats j "img"; let z ← getFloats j "z"; let e ← getFloat j "electrons"
       pure (okJ [("out", floats ((Array.range img.size).map (readNoise (fun _ i => z[i]!) e 0 (fun i => img[i]!))))])
